@@ -279,6 +279,9 @@ def suite_kill(binf, tier, rng, which):
                         w = ip.op({"op": "write", "fl": "sync", "key": _keys[0], "data": b"after-crash".hex(), "algo": "sha256"})
                         rd = ip.op({"op": "read", "fl": "sync", "key": _keys[0]})
                         r["cont"] = (w.get("r"), rd.get("r"), rd.get("v"))
+                        if _binf != "sync":
+                            rda = ip.op({"op": "read", "fl": "async", "key": _keys[0]})
+                            r["cont_async"] = (rda.get("r"), rda.get("v"))
                     finally:
                         ip.close()
                 return r
@@ -341,6 +344,8 @@ def _c04_oracle(a, before, after_ref, keys, data):
             return f"another key changed: {k}"
     if a["cont"][0] != "ok" or a["cont"][1] != "ok" or a["cont"][2] != b"after-crash".hex():
         return f"after the crash a new write to the key does not succeed / is not visible: {a['cont']}"
+    if "cont_async" in a and a["cont_async"] != ("ok", b"after-crash".hex()):
+        return f"after the crash a new write to the key is not visible through the async entry points: {str(a['cont_async'])[:160]}"
     return None
 
 # ------------------------------------------------------------------------------------------------ C13
